@@ -133,3 +133,12 @@ def tpl2(ctx: Ctx):
         ctx.ob(rule, sp.qual, f"[user {un}, password {pn}, host {hn}, port {on}]", ok,
                f"make_netloc gives {text!r}, which split_netloc takes apart as {back}; expected {want}", where(sp, sp.node),
                sample=f"{text!r} -> {want}")
+        if ok:
+            # ... and printing what was parsed gives the same authority again (str(url) is re-parsed and re-printed: a
+            # redundant '@' or ':' that parses away would make the canonical string unstable)
+            b2 = dict(user=back[0], password=back[1], host=h, port=back[3], encode=False)
+            text2, _ = eval_paths(model, mk, rmk, b2, "make_netloc")
+            ctx.instance(rule)
+            ctx.ob(rule, mk.qual, f"[user {un}, password {pn}, host {hn}, port {on}] printed again", text2 == text,
+                   f"make_netloc gives {text!r}; parsed and printed again it is {text2!r}: the canonical string is not a fixed point",
+                   where(mk, mk.node), sample=f"{text!r} stable")
